@@ -225,6 +225,12 @@ GOALS = {
                         {"a": "SetSelf", "s": "s1", "t": "g1", "mode": ["N"], "chan": False},
                         {"a": "Leave", "s": "s1", "t": "g1", "unsub": True, "chan": False},
                         {"a": "DelTopic", "s": "s2", "t": "g1", "hard": True, "chan": False}]),
+    "owner_and_member_attached": ('st.topics["g1"].exists /\\ "g1" \\in M(st.sess["s1"].subs) /\\ "g1" \\in M(st.sess["s2"].subs) /\\ st.topics["g1"].owner = "u1" '
+                                  '/\\ "W" \\in Eff(st.subs["g1"]["u2"])',
+                                  [{"a": "DelTopic", "s": "s1", "t": "g1", "hard": True, "chan": False,
+                                    "during": {"method": "TopicDelete", "do": {"a": "Pub", "s": "s2", "t": "g1", "c": "c2", "noecho": False, "chan": False}}},
+                                   {"a": "Sub", "s": "s2", "t": "g1", "mode": ["-"], "chan": False, "bg": False},
+                                   {"a": "Pub", "s": "s2", "t": "g1", "c": "c1", "noecho": False, "chan": False}]),
     "sharer_only": ('st.topics["g1"].exists /\\ st.subs["g1"]["u2"].st = "live" /\\ "S" \\in Eff(st.subs["g1"]["u2"]) /\\ ~IsAdmin(Eff(st.subs["g1"]["u2"])) '
                     '/\\ "g1" \\in M(st.sess["s2"].subs) /\\ st.subs["g1"]["u3"].st = "none"',
                     [{"a": "SetOther", "s": "s2", "t": "g1", "u": "u3", "mode": ["J", "R", "W", "P", "A"], "chan": False},
